@@ -31,8 +31,9 @@ type Prog struct {
 	byObj  map[*types.Func]*Fn
 	byLit  map[*ast.FuncLit]*Fn
 
-	Skipped []string // packages out of scope
-	Ignored []string // files excluded by build constraints
+	Skipped         []string // packages out of scope
+	RangeNormalised int      // indexed range loops read as value range loops (normaliseIndexedRanges)
+	Ignored         []string // files excluded by build constraints
 
 	ssa *SSA
 
@@ -123,8 +124,116 @@ func LoadWith(repo string, overlay map[string][]byte, extraEnv []string) (*Prog,
 	if len(p.Pkgs) < 45 {
 		return nil, fmt.Errorf("only %d library packages loaded (floor 45)", len(p.Pkgs))
 	}
+	for _, pk := range p.Pkgs {
+		for _, file := range pk.Syntax {
+			p.RangeNormalised += normaliseIndexedRanges(file, pk.TypesInfo)
+		}
+	}
 	p.indexFuncs()
 	return p, nil
+}
+
+// normaliseIndexedRanges gives the two spellings of a loop over the elements
+// of a slice one syntax tree:
+//
+//	for i := range xs { v := xs[i]; ... }   is read as   for i, v := range xs { ... }
+//
+// when xs is a call-free variable or field path of slice or array type that
+// the body does not assign to, and i is not assigned in the body (the element
+// read at the top of an iteration is then the element the range clause would
+// have produced). The rules look at range statements; without this step a
+// loop rewritten from one spelling to the other would no longer be recognised.
+func normaliseIndexedRanges(file *ast.File, info *types.Info) int {
+	n := 0
+	ast.Inspect(file, func(x ast.Node) bool {
+		rs, ok := x.(*ast.RangeStmt)
+		if !ok || rs.Tok != token.DEFINE || rs.Value != nil || rs.Body == nil || len(rs.Body.List) == 0 {
+			return true
+		}
+		key, ok := rs.Key.(*ast.Ident)
+		if !ok || key.Name == "_" {
+			return true
+		}
+		t := info.TypeOf(rs.X)
+		if t == nil {
+			return true
+		}
+		switch t.Underlying().(type) {
+		case *types.Slice, *types.Array:
+		default:
+			return true
+		}
+		switch ast.Unparen(rs.X).(type) {
+		case *ast.Ident, *ast.SelectorExpr:
+		default:
+			return true
+		}
+		pure := true
+		ast.Inspect(rs.X, func(y ast.Node) bool {
+			switch y.(type) {
+			case *ast.CallExpr, *ast.IndexExpr, *ast.StarExpr:
+				pure = false
+			}
+			return pure
+		})
+		if !pure {
+			return true
+		}
+		as, ok := rs.Body.List[0].(*ast.AssignStmt)
+		if !ok || as.Tok != token.DEFINE || len(as.Lhs) != 1 || len(as.Rhs) != 1 {
+			return true
+		}
+		v, ok := as.Lhs[0].(*ast.Ident)
+		if !ok || v.Name == "_" {
+			return true
+		}
+		ix, ok := ast.Unparen(as.Rhs[0]).(*ast.IndexExpr)
+		if !ok {
+			return true
+		}
+		xs := types.ExprString(rs.X)
+		if types.ExprString(ix.X) != xs {
+			return true
+		}
+		kid, ok := ast.Unparen(ix.Index).(*ast.Ident)
+		if !ok || info.ObjectOf(kid) != info.ObjectOf(key) {
+			return true
+		}
+		safe := true
+		for _, st := range rs.Body.List[1:] {
+			ast.Inspect(st, func(y ast.Node) bool {
+				switch w := y.(type) {
+				case *ast.AssignStmt:
+					for _, l := range w.Lhs {
+						ls := types.ExprString(l)
+						if ls == xs || strings.HasPrefix(xs, ls+".") {
+							safe = false
+						}
+						if id, ok := l.(*ast.Ident); ok && info.ObjectOf(id) == info.ObjectOf(key) {
+							safe = false
+						}
+					}
+				case *ast.IncDecStmt:
+					if id, ok := w.X.(*ast.Ident); ok && info.ObjectOf(id) == info.ObjectOf(key) {
+						safe = false
+					}
+				case *ast.UnaryExpr:
+					if id, ok := ast.Unparen(w.X).(*ast.Ident); ok && w.Op == token.AND && info.ObjectOf(id) == info.ObjectOf(key) {
+						safe = false
+					}
+				}
+				return safe
+			})
+		}
+		if !safe {
+			return true
+		}
+		rs.Value = v
+		rs.Body.List = rs.Body.List[1:]
+		n++
+		return true
+	})
+	return n
 }
 
 // generatorFile reports whether the file is a stand-alone program excluded by
